@@ -269,6 +269,11 @@ class DWorld:
             f = ev.get("failure") or ev.get("log_failure")
             if "debugInfo" in ev or "Unhandled" in str(ev.get("log_format", "")):
                 return
+            if f is not None and f.type is ValueError and str(f.value).startswith("invalid hostname"):
+                # Twisted's HostnameEndpoint refusing a name it cannot IDNA-encode: a dialled attempt that failed, reported noisily by the
+                # Connector (log.err) - an observation (DESIGN section 10), not "an error while handling hints"
+                self.attempt_failures = getattr(self, "attempt_failures", []) + [str(f.value)]
+                return
             self.logged.append(f.type.__name__ if f is not None else str(ev.get("message"))[:80])
 
     # ---- primitive environment steps ------------------------------------------------
